@@ -4,6 +4,7 @@ import (
 	"bytes"
 	"context"
 	"fmt"
+	"os"
 	"regexp"
 	"sort"
 	"strings"
@@ -397,6 +398,156 @@ func c14RaceMatrix(w *h.W) {
 	w.Traces(1)
 	w.Nontrivial(fmt.Sprint("matrix", w.Shard))
 	w.Outcome("matrix-round")
+}
+
+// ---- fresh atoms across interpreters ---------------------------------------------------------------
+// The atom table is process-wide. A name that no interpreter has seen before is interned through one of
+// the routes by which names come into being (parser token, quoted write - which lexes the name to decide
+// on quotes -, atom_codes, atom_chars, atom_concat, sub_atom, read_term, op/3, =.., number of a functor);
+// another interpreter then mentions the same name and keeps the atom; the first interpreter goes on
+// creating other names of the same length through every route; finally the second interpreter's atom
+// must still be spelled as it was and be the atom its name denotes.
+
+type c14FreshCase struct {
+	Fresh  bool   `json:"fresh_atoms"`
+	Route  string `json:"route"`
+	Name   string `json:"name"`
+	Churn  string `json:"churn_name"`
+	Second string `json:"second_route"`
+}
+
+// %N = the name, %C = its code list; every route makes interpreter A intern %N (or a name starting with it)
+var c14FreshRoutes = map[string]string{
+	"parser":             "X = '%N'",
+	"quoted-write":       "writeq('%N burrow')",
+	"quoted-write-built": "atom_codes(A, %C), atom_concat(A, ' burrow', B), writeq(B)",
+	"write_canonical":    "atom_concat(x, ' %N', B), write_canonical(f(B))",
+	"print-functor":      "atom_codes(A, %C), atom_concat(A, ' b', B), T =.. [B, 1], write_term(T, [quoted(true)])",
+	"atom_codes":         "atom_codes(A, %C)",
+	"atom_chars":         "atom_codes(A0, %C), atom_chars(A0, Cs), atom_chars(A, Cs)",
+	"atom_concat":        "atom_codes(A0, %C), atom_concat(A0, '', A), atom_concat(A1, A2, A0), A2 \\== ''",
+	"sub_atom":           "atom_codes(A0, [0'x, 0'x|%C]), sub_atom(A0, 2, _, 0, A)",
+	"read_term":          "read_term(T, [])",
+	"op":                 "atom_codes(A, %C), op(700, xfx, A)",
+	"univ":               "atom_codes(A, %C), T =.. [A, 1], assertz(T)",
+	"number_vars-name":   "atom_codes(A, %C), T = f(A, 'it''s %N'), writeq(T)",
+}
+
+func c14Codes(s string) string {
+	var cs []string
+	for _, r := range s {
+		cs = append(cs, fmt.Sprint(int(r)))
+	}
+	return "[" + strings.Join(cs, ", ") + "]"
+}
+
+func c14FreshGoal(route, name string) string {
+	g := c14FreshRoutes[route]
+	g = strings.ReplaceAll(g, "%N", name)
+	g = strings.ReplaceAll(g, "%C", c14Codes(name))
+	return g
+}
+
+func c14FreshRun(c *c14FreshCase) (exp, act string, ok bool) {
+	newI := func(name string) *prolog.Interpreter {
+		return prolog.New(strings.NewReader("'"+name+" x'. "+name+". f("+name+")."), &bytes.Buffer{})
+	}
+	run := func(p *prolog.Interpreter, q string) string {
+		k := c14RunKeep(p, q+" .")
+		if k.err != nil {
+			return "error: " + k.err.Error()
+		}
+		if k.caps == nil {
+			return "fails"
+		}
+		return "ok"
+	}
+	a, b := newI(c.Name), newI("unrelated")
+	// 1. A comes across the name for the first time
+	if r := run(a, c14FreshGoal(c.Route, c.Name)); r != "ok" {
+		return "A's goal succeeds", "A: " + c14FreshGoal(c.Route, c.Name) + " " + r, false
+	}
+	// 2. B mentions it and keeps the atom
+	second := "X = '" + c.Name + "'"
+	if c.Second == "atom_codes" {
+		second = "atom_codes(X, " + c14Codes(c.Name) + ")"
+	}
+	if r := run(b, ":- dynamic(kept/1)"); false {
+		_ = r
+	}
+	if r := run(b, second+", assertz(kept(X))"); r != "ok" {
+		return "B's goal succeeds", "B: " + r, false
+	}
+	// 3. A goes on: other names of the same length through every route
+	ac := newI(c.Churn)
+	for _, p := range []*prolog.Interpreter{a, ac} {
+		for route := range c14FreshRoutes {
+			run(p, c14FreshGoal(route, c.Churn))
+		}
+		run(p, "writeq('"+c.Churn+" burrow'), writeq(f('"+c.Churn+" z')), writeq('it''s')")
+	}
+	// 4. B looks at what it kept
+	k := c14RunKeep(b, "kept(X), atom_codes(X, Cs), atom_length(X, L), (X == '"+c.Name+"' -> S = same ; S = different), atom_codes(Y, "+c14Codes(c.Name)+"), (X == Y -> S2 = same ; S2 = different) .")
+	exp = "B's atom is still spelled " + c.Name + " and is the atom that name denotes"
+	if k.err != nil || k.caps == nil {
+		return exp, fmt.Sprintf("B's observation does not succeed: %v", k.err), false
+	}
+	cv := h.NewConv()
+	get := func(n string) string { return ref.Canon(cv.Term(k.caps[n].T, k.caps[n].Env), ref.NewNamer()) }
+	want := ref.Canon(ref.Atom(c.Name), ref.NewNamer())
+	wantCodes := []ref.Term{}
+	for _, r := range c.Name {
+		wantCodes = append(wantCodes, ref.Int(int64(r)))
+	}
+	if get("X") != want || get("Cs") != ref.Canon(ref.List(wantCodes...), ref.NewNamer()) || get("S") != "'same'" || get("S2") != "'same'" || get("L") != fmt.Sprint(len([]rune(c.Name))) {
+		return exp, fmt.Sprintf("X = %s, codes %s, length %s, X == '%s': %s, X == atom_codes route: %s", get("X"), get("Cs"), get("L"), c.Name, get("S"), get("S2")), false
+	}
+	return exp, "as expected", true
+}
+
+var c14FreshSeq int
+
+func c14FreshAtoms(w *h.W) {
+	var routes []string
+	for r := range c14FreshRoutes {
+		routes = append(routes, r)
+	}
+	sort.Strings(routes)
+	lengths := []int{0, 1, 7, 24} // padding beyond the unique stem
+	for round := 0; round < w.Pick(3, 10); round++ {
+		for _, route := range routes {
+			for _, ln := range lengths {
+				for _, second := range []string{"parser", "atom_codes"} {
+					if !w.Mine() {
+						continue
+					}
+					if w.Expired() {
+						return
+					}
+					c14FreshSeq++
+					// names that no execution of this process (or of its siblings) has used before
+					stem := fmt.Sprintf("q%dw%dn%d", w.Shard, os.Getpid()%1000, c14FreshSeq)
+					pad := func(prefix string) string { return prefix + stem + strings.Repeat("z", ln) }
+					c := &c14FreshCase{Fresh: true, Route: route, Name: pad("k"), Churn: pad("m"), Second: second}
+					if c.Name == c.Churn {
+						continue
+					}
+					w.Guard(c)
+					exp, act, ok := c14FreshRun(c)
+					w.Unguard()
+					w.Eval(1)
+					w.States(1)
+					w.Transitions(4)
+					w.Traces(1)
+					w.Nontrivial(fmt.Sprint("fresh:", route, ln, second, round))
+					w.Outcome("fresh-atoms")
+					if !ok {
+						w.ViolationNoConfirm("fresh atoms: a name first interned through "+route+" changes under another interpreter's atom", c, exp, act)
+					}
+				}
+			}
+		}
+	}
 }
 
 // c12RaceHistories: every call history over {Next, Scan, Err, Close} of length <= 4 on the query kinds of
